@@ -113,6 +113,7 @@ structure Note where
   c : Ch
   idx : Nat
   recip : Bytes
+  final : Bool := false        -- the report letter was `D` (paragraph and mark follow at once); false: a `Z` that may be turned into `D`
   deriving DecidableEq, Repr
 
 inductive CleanReq | todo (m : Nat) | foop (m : Nat) | finished
@@ -278,9 +279,9 @@ def handleReport (cfg : Cfg) (s : St) (c : Ch) (rep : Bytes) : St :=
       { (s1.upd sl.m fun ms => { ms with fin := (c, sl.idx) :: ms.fin, delivered := (c, sl.idx) :: ms.delivered })
         with mayMark := (sl.m, c, sl.idx) :: s1.mayMark }
     else if letter = 68 then  -- D
-      { s1 with notes := s1.notes ++ [⟨sl.m, c, sl.idx, sl.recip⟩] }
+      { s1 with notes := s1.notes ++ [⟨sl.m, c, sl.idx, sl.recip, true⟩] }
     else if letter = 90 ∧ s.clock > ms.birth + cfg.lifetime then   -- Z for a message past its lifetime may be turned into D
-      { s1 with notes := s1.notes ++ [⟨sl.m, c, sl.idx, sl.recip⟩] }
+      { s1 with notes := s1.notes ++ [⟨sl.m, c, sl.idx, sl.recip, false⟩] }
     else s1
 
 def feedReports (cfg : Cfg) (s : St) (c : Ch) : Bytes → St
